@@ -2,12 +2,12 @@ SPECIFICATION Spec
 CONSTANTS
     Variant = "fixed"
     ASTs <- MCASTsThorough
-    ScopeVals <- MCValsQuick
-    WithUndef = FALSE
-    Modes = {"E", "T", "I", "B"}
+    ScopeVals <- MCValsMid
+    WithUndef = TRUE
+    Modes = {"E", "T", "I", "F", "B", "D"}
     Copies = {1, 2}
-    CopyAll = FALSE
-    MaxCount = 1
+    CopyAll = TRUE
+    MaxCount = 2
 CONSTRAINT Bounded
 INVARIANTS
     CacheIrrelevant
